@@ -133,7 +133,8 @@ def run(ctx):
             n_exh += 1
     ctx.coverage["random_cases"] = n_random
     ctx.coverage["exhaustive_cases"] = n_exh
-    ctx.coverage["exhaustive"] = "all 4^3 dictionaries per dimension over 3 rows x 3 uncommon categories, %s dimensions" % ("1-3" if thorough else "1-2")
+    ctx.coverage["exhaustive_subspace"] = ("all 4^3 dictionaries per dimension over 3 rows x 3 uncommon categories, %s dimensions "
+                                        "(a complete sub-space; the random stream is not exhaustive)" % ("1-3" if thorough else "1-2"))
     ctx.evaluations = len(cases)
 
     prelude = "From Catii Require Import Cube.Dim Cube.Walk Cube.WalkSpec Cube.Check."
